@@ -112,6 +112,12 @@ engine_b.WORKERS[ID] = worker
 
 def cases(tier):
     out = [(desc, order) for desc in design.family_hier(tier) for order in core.ORDER_VARIANTS]
+    # every sharing shape of a hierarchy up to five levels deep (fixed pass-through wiring)
+    for desc in design.shape_family(5 if tier == "thorough" else 4):
+        out.append((desc, "asc"))
+        if tier == "thorough" or len(desc[1]) <= 3:
+            out.append((desc, "desc"))
+            out.append((desc, "asc", "edif-identifiers"))
     for desc in design.family_hier(tier, variants=("plain",)):
         if desc[0] in ("K2-shared", "K8-bus", "K1-chain2"):
             out.append((desc, "asc", "late-ports"))
